@@ -11,7 +11,7 @@ CONSTANTS
   Keep <- KeepAll
   StoreDirect = FALSE
   MetaDirect = FALSE
-  MaxLen = 40
+  MaxLen = 60
 INIT Init
 NEXT Next
 VIEW StateView
